@@ -349,7 +349,7 @@ pub fn run_c14(sc: &HistSc, st: &mut Stats) -> super::c06::HistOutcome {
         }
     }
     if let Some(v) = pool_laws(&pool, st, &mut d) { return HistOutcome { violation: Some(v), outcome: d.finish(), nontrivial }; }
-    // key order on its own: single-entry objects over keys of many lengths around the inline
+    // key and leaf order on their own: single-entry objects (or strings, numbers, short arrays) over keys of many lengths around the inline
     // capacity of a key (16 bytes) that share prefixes or not — an order that treats short and
     // long keys differently, or compares by length first, loses transitivity here
     {
@@ -370,9 +370,34 @@ pub fn run_c14(sc: &HistSc, st: &mut Stats) -> super::c06::HistOutcome {
         keys.sort(); keys.dedup();
         // hand the keys over in a drawn order (not sorted)
         for i in (1..keys.len()).rev() { let j = rng.usize_below(i + 1); keys.swap(i, j); }
-        let built = catch_unwind(AssertUnwindSafe(|| keys.iter().map(|k| {
-            let v = if rng.chance(1, 8) { Value::Boolean(true) } else { Value::Null };
-            Value::Object(Object::from_vec(vec![Entry::new(Key::from(k.as_str()), v)]))
+        // number spellings of many lengths around the inline capacity of a number (16 bytes)
+        let nums: Vec<String> = (0..keys.len()).map(|_| {
+            let mut t = String::new();
+            if rng.chance(1, 3) { t.push('-'); }
+            if rng.chance(1, 5) { t.push('0'); } else {
+                t.push((b'1' + rng.below(9) as u8) as char);
+                for _ in 0..*rng.pick(&[0usize, 0, 1, 2, 7, 14, 15, 16, 17, 24]) { t.push((b'0' + rng.below(10) as u8) as char); }
+            }
+            if rng.chance(1, 3) { t.push('.'); for _ in 0..*rng.pick(&[1usize, 1, 2, 8, 15, 20]) { t.push((b'0' + rng.below(10) as u8) as char); } }
+            if rng.chance(1, 4) { t.push(*rng.pick(&['e', 'E'])); if rng.chance(1, 2) { t.push(*rng.pick(&['+', '-'])); } for _ in 0..rng.urange(1, 3) { t.push((b'0' + rng.below(10) as u8) as char); } }
+            t
+        }).collect();
+        // what carries the keys / spellings: object keys, string values, number values, arrays of
+        // different lengths over a few of them, or a mixture
+        let shape = rng.below(6);
+        let built = catch_unwind(AssertUnwindSafe(|| keys.iter().zip(nums.iter()).enumerate().map(|(i, (k, n))| {
+            let as_key = |k: &str, rng: &mut Rng| { let v = if rng.chance(1, 8) { Value::Boolean(true) } else { Value::Null }; Value::Object(Object::from_vec(vec![Entry::new(Key::from(k), v)])) };
+            match if shape == 5 { rng.below(5) } else { shape } {
+                0 | 1 => as_key(k, &mut rng),
+                2 => V::Str(k.clone()).build(),
+                3 => V::Num(n.clone()).build(),
+                _ => {
+                    // arrays of 0..3 items drawn from the first three keys / spellings
+                    let len = rng.usize_below(4);
+                    let items: Vec<Value> = (0..len).map(|_| { let j = rng.usize_below(3.min(keys.len())); if (i + j) % 2 == 0 { V::Str(keys[j].clone()).build() } else { V::Num(nums[j].clone()).build() } }).collect();
+                    Value::Array(items.into())
+                }
+            }
         }).collect::<Vec<Value>>()));
         if let Ok(kpool) = built {
             st.bump("key_order_pools_checked");
